@@ -118,6 +118,19 @@ int main(int argc, char **argv) {
             vrng_bytes(&R, nn, 32); memcpy(cl, nn, 32); cl[0] &= 248; cl[31] &= 127; cl[31] |= 64;
             crypto_core_ed25519_scalar_reduce(inv, cl); if (crypto_core_ed25519_scalar_invert(inv, inv) == 0 && crypto_scalarmult_ed25519_noclamp(P1, inv, P) == 0) ed_mul(1, nn, P1); } }
       (void) found; }
+    /* field elements just below p whose limbs (radix 2^51 and 2^25.5) are all ones except one: as y of an Edwards encoding (either sign)
+     * and as s of a Ristretto encoding, given to the validity tests and, when they decode, reproduced as a RESULT (multiplication by 1,
+     * addition of the identity) - decoding and the final canonicalisation must look at every limb.  Which of them are points is for the oracle. */
+    { static const int LB51[6] = { 0, 51, 102, 153, 204, 255 }, LB26[11] = { 0, 26, 51, 77, 102, 128, 153, 179, 204, 230, 255 };
+      unsigned char one[32] = { 1 }, idn[32] = { 1 }, rid[32] = { 0 }, y[32]; int per = n >= 40 ? 4 : 1;
+      for (int radix = 0; radix < 2; radix++) { const int *lb = radix ? LB26 : LB51; int nl = radix ? 10 : 5;
+        for (int j = 1; j < nl; j++) for (int c = 0; c < per; c++) {
+            memset(y, 0xff, 32); y[31] = 0x7f;
+            for (int bit = lb[j]; bit < lb[j + 1]; bit++) if (vrng_below(&R, 2)) y[bit >> 3] &= (unsigned char) ~(1u << (bit & 7));
+            y[0] = (unsigned char) (0xed + vrng_below(&R, 19));
+            for (int sg = 0; sg < 2; sg++) { y[31] = (unsigned char) ((y[31] & 0x7f) | (sg << 7)); ed_valid("near_p", y);
+                if (crypto_core_ed25519_is_valid_point(y) == 1 || c == 0) { ed_mul(0, one, y); ed_addsub(y, idn); } }
+            y[31] &= 0x7f; y[0] &= 0xfe; r_valid(y); r_addsub(y, rid); } } }
     /* ---- scalar arithmetic: structured + random, reduced and arbitrary byte strings */
     { static const char *sc_hex[] = { "0000000000000000000000000000000000000000000000000000000000000000", "0100000000000000000000000000000000000000000000000000000000000000",
         "ecd3f55c1a631258d69cf7a2def9de1400000000000000000000000000000010", "edd3f55c1a631258d69cf7a2def9de1400000000000000000000000000000010",
